@@ -190,7 +190,7 @@ pub fn spline_coeffs<E: Elem>(sc: &Scen1) -> Option<(Vec<Vec<Val>>, Vec<Vec<Val>
                 BoundaryCondition::Individual(ndarray::ArrayD::from_shape_vec(IxDyn(shape), v).unwrap())
             }
         };
-        let strat = CubicSpline::new().extrapolate(sc.ext).boundary(boundary);
+        let strat = crate::scen::configure_spline(sc.ext, boundary);
         let x = Array1::from(sc.axis_vals().iter().map(|&v| E::of_f64(v)).collect::<Vec<_>>());
         let interp = Interp1DBuilder::new(data).x(x).strategy(strat).build().ok()?;
         let (a, b) = interp.verif_strategy().verif_coefficients();
@@ -841,6 +841,29 @@ pub fn run_c07(cfg: &Cfg) {
         }
         if ci == 0 { rep.sample(obj(vec![("scenario", sc.to_json())])); }
     }
+    // data whose end rows differ in SOME lanes only is not periodic: it must be refused (otherwise the right
+    // end and its periodic images S(xn + kP) = S(x0) disagree in those lanes)
+    for _ in 0..(if thorough { 300 } else { 40 }) {
+        let n = rng.range(3, 8) as usize;
+        let (axv, _class) = gen_spline_axis(&mut rng, n);
+        let trail = match rng.below(3) { 0 => vec![2], 1 => vec![3], _ => vec![2, 2] };
+        let lanes: usize = trail.iter().product();
+        let mut rows = gen_rows(&mut rng, n, lanes, true);
+        rows[n - 1] = rows[0].clone();
+        let bad = rng.below(lanes as u64) as usize;
+        rows[n - 1][bad] = rows[0][bad] + 1.0;
+        let p = axv[n - 1] - axv[0];
+        let sc = Scen1 { strat: Strat1::Spline(Bc::Periodic), ext: true, ax: Some(axv.clone()), rows, trail, queries: vec![axv[n - 1], axv[n - 1] + p] };
+        arena_reset();
+        let rx = sc.run::<XRat>();
+        let rf = sc.run::<f64>();
+        rep.evaluations += 2;
+        rep.count("partially-mismatched-ends");
+        if rx.0 == BuildOut::Built || rf.0 == BuildOut::Built {
+            rep.fail(&format!("Periodic spline built although the first and last rows differ in lane {}: S(xn) and S(xn + P) disagree there", bad),
+                     obj(vec![("scenario", sc.to_json()), ("S_xn", out_json(&rx.1.get(0).cloned().unwrap_or(Out::Oob))), ("S_xn_plus_P", out_json(&rx.1.get(1).cloned().unwrap_or(Out::Oob)))]));
+        }
+    }
     // Periodic without extrapolation behaves like any other boundary; non-periodic + extrapolate does not wrap
     rep.finish("periodic data sets (n >= 3, all spline axis classes, 0-3 trailing axes) with extrapolation; queries: points of [x0,xn), both ends, the floats adjacent to the ends, and their exact images x + k*P for k in +-1, +-3, +-100, +-10^6; exact run: S(x+kP) == S(x) exactly, ends and their images give y0; model compared in Coq (values and coefficients); f64 within the bound given by the rounding of the wrapped argument");
 }
@@ -1071,6 +1094,6 @@ pub fn build_spline_f64(sc: &Scen1) -> Option<ndarray_interp::interp1d::Interp1D
             BoundaryCondition::Individual(ndarray::ArrayD::from_shape_vec(IxDyn(shape), v).unwrap())
         }
     };
-    let strat = CubicSpline::new().extrapolate(sc.ext).boundary(boundary);
+    let strat = crate::scen::configure_spline(sc.ext, boundary);
     Interp1DBuilder::new(data).x(Array1::from(sc.axis_vals())).strategy(strat).build().ok()
 }
